@@ -476,6 +476,7 @@ def run(ctx):
     # a stress RESULT is the stress of the committed internal state: every step of the read receives that state
     ctx.attempt(_parameter_threading_rule, ctx, "R16.15", scope=lambda f: f.module.name.startswith("EasyFEA.Models.InElastic"), pname="z_e_pg", min_instances=4)
     ctx.attempt(stress_read_state_rule, ctx)
+    ctx.attempt(active_stress_guard_rule, ctx)
     from ..shared import group_loop_rule as _group_loop_rule
     from . import c14 as _c14
 
@@ -727,3 +728,46 @@ def stress_read_state_rule(ctx, rid="R16.16"):
         r.fail(f.qualname, "state-threading", f.file, f.lineno, "Behavior.Compute_stress", bad)
     else:
         r.ok("Compute_stress: (eps, z, dt=0) -> Compute_strain_6d; (eps6, z) -> Compute_sigma")
+
+
+def active_stress_guard_rule(ctx, rid="R16.17"):
+    """'the stress result equals the stress the assembly used': whether the active fibre stress takes part is decided at
+    several places (the element operator, the assembly, the reported second Piola-Kirchhoff stress) by a test on
+    `material.active_stress`, which may be a per-element / per-point FIELD.  Every such test is evaluated, with the
+    interpreter, on three activation fields -- nowhere active, everywhere active, active in PART of the body -- and turned
+    into 'the active part contributes' (a guard whose body returns early counts negated): all sites must agree, and a
+    partly active body must contribute everywhere."""
+    from ..xeval import Interp, XObj, XRaise
+    from ..xarray import XArray
+    from ..alg import Q
+
+    repo = ctx.repo
+    r = ctx.rule(rid, "every test on material.active_stress decides 'the active stress contributes' the same way for a nowhere / everywhere / partly active field (partly active contributes)", min_instances=3)
+    fields = {"nowhere": XArray((2, 2), [Q(0)] * 4), "everywhere": XArray((2, 2), [Q(1), Q(2), Q(3), Q(4)]), "partly": XArray((2, 2), [Q(0), Q(0), Q(3), Q(4)])}
+    want = {"nowhere": False, "everywhere": True, "partly": True}
+    for f in sorted(repo.all_functions(), key=lambda f: f.qualname):
+        if not f.module.name.startswith(("EasyFEA.Simulations._hyperelastic", "EasyFEA.FEM.Operators.NonLinear", "EasyFEA.Models.HyperElastic")):
+            continue
+        for n in ast.walk(f.node):
+            if not (isinstance(n, ast.If) and any(isinstance(x, ast.Attribute) and x.attr == "active_stress" for x in ast.walk(n.test))):
+                continue
+            r.instance(fn=f.qualname)
+            skips = bool(n.body) and isinstance(n.body[0], ast.Return)
+            verdict = {}
+            ok = True
+            for lab, fld in fields.items():
+                mat = SimpleNamespace(active_stress=fld)
+                env = {"material": mat, "self": XObj(f.cls, {"material": mat}) if f.cls is not None else None}
+                try:
+                    t = Interp(repo).eval_expr(n.test, {k: v for k, v in env.items() if v is not None}, f.file, f.module)
+                except XRaise as e:
+                    ok = False
+                    verdict[lab] = f"raises {e}"
+                    continue
+                contributes = (not bool(t)) if skips else bool(t)
+                verdict[lab] = contributes
+                ok = ok and contributes == want[lab]
+            if ok:
+                r.ok(f"{f.qualname}: `{norm_text(n.test)[:50]}` ({'skip' if skips else 'add'} guard) == any(active_stress != 0)")
+            else:
+                r.fail(f.qualname, f"active-guard:{norm_text(n.test)[:40]}", f.file, n.lineno, f"{(f.cls.name + '.') if f.cls else ''}{f.name}", f"`{norm_text(n.test)[:60]}` lets the active stress contribute for {verdict} (expected nowhere: False, everywhere: True, partly: True): with an activation field that vanishes in part of the body this site disagrees with the element operator -- the reported stress is not the stress the equilibrium was solved with")
